@@ -18,6 +18,7 @@ func init() {
 			ruleZ4(c)
 			ruleZ5(c)
 			ruleZ6(c)
+			ruleZ7(c)
 			ruleH3(c)
 		},
 		explanation: "Time bounds and the behaviour of ttRPC on a cut connection are not decided.  Decided is the structure that termination and restartability rest on: every channel receive executed while the stub lock is held is a select with a second case that the end of the session makes ready (the close notification's channel) — the one bare receive, close() waiting for the server goroutine, is preceded on every path by closing the server; the close notification registered with the ttRPC client carries a value created in that very Start activation and the teardown it triggers is control-dependent on comparing it with the stub's current session; every session resource set up by Start/connect, including the conditionally reused connection, is reset by a deferred cleanup on every failing exit; close() is only ever called with the stub lock held, resets started and conn, and the per-activation done channel is closed once, after the server result was sent to a channel of capacity >= 1; Wait only waits when started and Start refuses a started stub; Configure reports its result exactly once.",
@@ -591,6 +592,43 @@ func ruleZ6(c *Ctx) {
 				}
 				c.ok("Z6", key, fa.Pos(), la.holds(fa, "stub.Mutex", 'W'), fmt.Sprintf("stub.%s is accessed in %s under the stub lock", fld, funcKey(f)),
 					"the session field is accessed with lockset "+la.describe(fa)+": a check made here can be invalidated by a concurrent Start/Stop before it is acted upon (check-then-act race), e.g. a late close notification judged current tears down the next session")
+			}
+		}
+	}
+}
+
+// ruleZ7: the stub is marked started only on the successful path.
+func ruleZ7(c *Ctx) {
+	m := c.M
+	c.rule("Z7", "started means started: Start sets stub.started only where no failing return can follow (after registration succeeded and the configuration result arrived), and nothing but close() clears it", 2)
+	st := m.method(pkgStub, "stub", "Start")
+	stT := m.named(pkgStub, "stub")
+	n := 0
+	for _, fs := range m.fieldStores(st, stT, "started") {
+		if !isConstBool(fs.Store.Val, true) {
+			continue
+		}
+		n++
+		bad := ""
+		for _, r := range returnsOf(st) {
+			if !instrCanReach(fs.Store, r) {
+				continue
+			}
+			for _, v := range returnValues(r, 0) {
+				if !isNilConst(v) {
+					bad = fmt.Sprintf("the failing return at %s can follow", c.pos(r.Pos()))
+				}
+			}
+		}
+		c.ok("Z7", "Start/started", fs.Store.Pos(), bad == "", "Start marks the stub started only when it is going to return success", bad+": a failed Start leaves the stub marked started, so the retry is refused with 'already started' and Wait blocks")
+	}
+	if n == 0 {
+		c.violate("Z7", "Start/started", st.Pos(), "Start marks the stub started", "no store of true into stub.started")
+	}
+	for _, f := range m.funcsInPkg(pkgStub) {
+		for _, fs := range m.fieldStores(f, stT, "started") {
+			if isConstBool(fs.Store.Val, false) {
+				c.ok("Z7", "cleared-by/"+funcKey(f), fs.Store.Pos(), f.Name() == "close", "only close() marks the stub not started", funcKey(f)+" clears the started flag")
 			}
 		}
 	}
